@@ -3,6 +3,8 @@ CONSTANTS
   Modes <- AllModes
   LastSerial <- MCLastSerial
   DayStepsUntil <- MCDayStepsUntil
+  CalSeeds <- MCCalSeeds
+  SplitChains <- MCSplitChains
   DateYears <- MCDateYears
   ArgLo <- MCArgLo
   ArgHi <- MCArgHi
